@@ -245,8 +245,9 @@ def scenario_message_path(ck, stats, k, rule):
     rmtree_long(sb.root)
 
 
-def scenario_interpolated_dest(ck, stats, L):
-    """move "<base>/\\1" where the capture makes the destination L characters long; decoy at the truncation"""
+def scenario_interpolated_dest(ck, stats, L, tail=''):
+    """move "<base>/\\1<tail>" where the capture makes "<base>/<capture>" L characters long (tail: literal text after the reference, e.g.
+    "/newsletters" - its first characters must not complete a shortened path into <base>/<capture>/new); decoys at the truncations"""
     sb = mdrun.Sandbox()
     src = sb.maildir('src')
     base = sb.root + '/o'
@@ -270,9 +271,11 @@ def scenario_interpolated_dest(ck, stats, L):
         sb.cleanup(); return
     dest = base + '/' + cap
     assert len(dest) == L
+    prefix = dest                    # "<base>/<capture>": with a tail, a maildir here is a decoy
+    dest = dest + tail
     # intended destination (if it can exist) and the decoy: the longest prefix that fits PATH_MAX-1 for "<dest>/new"
     made = []
-    for p in {dest, dest[:PATH_MAX - 1], dest[:PATH_MAX - 1 - 4], dest[:PATH_MAX - 2]}:
+    for p in {dest, dest[:PATH_MAX - 1], dest[:PATH_MAX - 1 - 4], dest[:PATH_MAX - 2], prefix}:
         p = p.rstrip('/')
         if len(p + '/new') < PATH_MAX and not p.endswith('/'):
             try:
@@ -280,7 +283,7 @@ def scenario_interpolated_dest(ck, stats, L):
             except OSError:
                 pass
     sb.add(src, 'new', b'Subject: ' + cap.encode() + b'\n\nb\n')
-    conf = sb.write_conf(b'maildir "%s" {\n match header "Subject" /(.*)/ move "%s/\\1"\n}\n' % (src.encode(), base.encode()))
+    conf = sb.write_conf(b'maildir "%s" {\n match header "Subject" /(.*)/ move "%s/\\1%s"\n}\n' % (src.encode(), base.encode(), tail.encode()))
     rc, out, err = sb.run([], conf=conf)
     stats['binary'] += 1
     left = sb.snapshot(src)
@@ -763,7 +766,10 @@ def run(ck):
         scenario_maildir_path(ck, stats, L)
     for L in range(PATH_MAX - w - 4, PATH_MAX + w + 1, step):
         scenario_interpolated_dest(ck, stats, L)
+
         scenario_interpolated_isdirectory(ck, stats, L)
+    for L in range(PATH_MAX - 8, PATH_MAX - 2):
+        scenario_interpolated_dest(ck, stats, L, ['/newsletters', '/current', '/new-arrivals/2024', '/curated'][L % 4])
     for k in (1, 2, 3, 5, 8):
         scenario_message_path(ck, stats, k, b'date modified > 1 hours')
     fixed = len('1700000000.4242_6.') + len(':2,')
@@ -800,7 +806,7 @@ def run(ck):
         'evaluations': stats['evals'] + stats['binary'],
         'distinct_nontrivial': len(stats['nontrivial']),
         'rule': 'pathslice: every path of <= %d components from {"", a, bc, new, md.x} (absolute/relative, trailing slash, empty components) x beg,end in a symmetric '
-                'range x buffer sizes {0,1,2,64,len-1,len,len+1}; pathjoin: lengths around the buffer size; binary: maildir path, interpolated destination, interpolated isdirectory path (directories at the intended path and at its truncations), ~-expanded maildir / destination / isdirectory strings of every length PATH_MAX-3 .. PATH_MAX+2 (judged with -n and at run time), host name, '
+                'range x buffer sizes {0,1,2,64,len-1,len,len+1}; pathjoin: lengths around the buffer size; binary: maildir path, interpolated destination (also with literal text after the reference: /newsletters, /current ...), interpolated isdirectory path (directories at the intended path and at its truncations), ~-expanded maildir / destination / isdirectory strings of every length PATH_MAX-3 .. PATH_MAX+2 (judged with -n and at run time), host name, '
                 'destinations of NAME_MAX-4 .. NAME_MAX+8 characters under move merged with flag (decoy maildirs at the NAME_MAX cut), three messages under one move whose literal destination of PATH_MAX-4 .. PATH_MAX characters ends in /new or /cur, HOME lengths that put "$HOME/.mdsort.conf" at PATH_MAX-3 .. PATH_MAX+3 without -f (decoy configurations at the shortened names), the path of a message rewritten by label / add-header and then piped to a command, 1-12 characters too long with a decoy file at its truncation, TMPDIR as the place of the exec stdin body temporary file over three messages (every length PATH_MAX-21 .. PATH_MAX-12), HOME and TMPDIR at every (quick: every other) length in a window around PATH_MAX / NAME_MAX with decoy maildirs at truncations. '
                 'non-trivial = the reference returns a string; distinct = distinct requests' % (4 if ck.tier == 'quick' else 5),
         'exhaustive': True,
